@@ -222,6 +222,18 @@ class ConstEval:
 
     def ev_Call(self, node):
         name = dotted(node.func)
+        if name in ('itertools.product', 'product') and node.args and all(k.arg == 'repeat' for k in node.keywords):
+            import itertools as _it
+            seqs = [self.ev(a) for a in node.args]
+            rep = self.ev(node.keywords[0].value) if node.keywords else 1
+            if not _unk(*seqs) and not _unk(rep) and isinstance(rep, int) and all(
+                    isinstance(q, (list, tuple, str)) for q in seqs):
+                size = 1
+                for q in seqs:
+                    size *= max(len(q), 1)
+                if size ** rep <= 4096:
+                    return list(_it.product(*seqs, repeat=rep))
+            return UNKNOWN
         if node.keywords:
             return UNKNOWN
         args = [self.ev(a) for a in node.args]
